@@ -86,6 +86,10 @@ let op_of (tok : string) : op =
   | ["tfr"; i] -> OpTFinalizeReset (nat_of_string i)
   | ["tx"; i; n] -> OpTXof (nat_of_string i, n_of_string n)
   | ["txr"; i; n] -> OpTXofReset (nat_of_string i, n_of_string n)
+  | ["dbg"; i] -> OpDbg (nat_of_string i)
+  | ["rdbg"; j] -> OpReaderDbg (nat_of_string j)
+  | ["zh"; i] -> OpZeroHasher (nat_of_string i)
+  | ["zr"; j] -> OpZeroReader (nat_of_string j)
   | ["tk"] -> OpTKeyInit
   | ["td"] -> OpTDigestNew
   | _ -> failwith ("op " ^ tok)
@@ -101,16 +105,51 @@ let obs_token = function
   | ObRead (n, b) -> string_of_n n ^ "x" ^ hex_of_nlist b
   | ObOk -> "ok"
   | ObErrIo k -> "ERR:io:" ^ io_kind_name k
+  | ObStr s -> String.map (fun c -> if c = ' ' then '_' else c) (string_of_nlist s)
+  | ObZeroed b -> if b then "zero" else "nonzero"
 
 let status_tokens = function
   | Ok _ -> []
   | Panic c -> [if debug_only c then "PANIC_DBG" else "PANIC"]
   | OutOfFuel -> ["OUTOFFUEL"]
 
+let pname_of plat = nlist_of_bytes (Bytes.of_string (match plat with
+    | "portable" | "portable8" -> "Portable" | "sse2" | "sse2_8" -> "SSE2" | "sse41" | "sse41_8" -> "SSE41"
+    | "avx2" | "avx2_8" -> "AVX2" | "avx512" -> "AVX512"
+    | _ -> (try Sys.getenv "VERIF_DETECTED" with Not_found -> "AVX512")))
+
 let run_case (k : string) (toks : string list) : string list =
   match toks with
+  | "gc" :: plat :: ctr :: root :: rest ->
+    let pieces = (match rest with [] | [""] -> [] | [s] -> List.map parse (String.split_on_char ',' s) | _ -> failwith "gc") in
+    let p = platform_of plat in
+    let us s = String.map (fun c -> if c = ' ' then '_' else c) s in
+    (match guts_feed p (guts_new (n_of_string ctr)) pieces [] with
+     | Ok (cs, lens) ->
+       let lens = List.map string_of_n lens in
+       (match guts_debug cs (pname_of plat) with
+        | Ok dbg ->
+          lens @ [us (string_of_nlist dbg)] @
+          (match guts_finalize p cs (root = "1") with
+           | Ok h -> [hex_of_nlist h]
+           | Panic c -> status_tokens (Panic c)
+           | OutOfFuel -> ["OUTOFFUEL"])
+        | Panic c -> lens @ status_tokens (Panic c)
+        | OutOfFuel -> ["OUTOFFUEL"])
+     | Panic c -> status_tokens (Panic c)
+     | OutOfFuel -> ["OUTOFFUEL"])
+  | ["gp"; plat; l; r; root] ->
+    (match guts_parent_cv (platform_of plat) (parse l) (parse r) (root = "1") with
+     | Ok h -> [hex_of_nlist h]
+     | Panic c -> status_tokens (Panic c)
+     | OutOfFuel -> ["OUTOFFUEL"])
   | "H" :: mode :: plat :: ops ->
     let p = platform_of plat in
-    let (obs, st) = Model.run_case p (mode_of mode) (List.map op_of ops) in
+    let pname = (match plat with
+        | "portable" | "portable8" -> "Portable" | "sse2" | "sse2_8" -> "SSE2" | "sse41" | "sse41_8" -> "SSE41"
+        | "avx2" | "avx2_8" -> "AVX2" | "avx512" -> "AVX512"
+        | _ -> (try Sys.getenv "VERIF_DETECTED" with Not_found -> "AVX512")) in
+    let pname = nlist_of_bytes (Bytes.of_string pname) in
+    let (obs, st) = Model.run_case p pname (mode_of mode) (List.map op_of ops) in
     List.map obs_token obs @ status_tokens st
   | _ -> failwith ("unknown case kind " ^ k)
